@@ -1237,6 +1237,8 @@ def main(outfile):
 
     import py2lean_interval                                      # separate module: interval notations, timeinterval.py (C13)
     py2lean_interval.main_interval(os.path.join(os.path.dirname(outfile), 'TranslatedInterval.lean'), write_if_changed)
+    import py2lean_vblk                                          # separate module: Circuit._validate_blk (C15)
+    py2lean_vblk.main_vblk(os.path.join(os.path.dirname(outfile), 'TranslatedVblk.lean'), write_if_changed)
 
 if __name__ == '__main__':
     main(sys.argv[1])
